@@ -1,5 +1,6 @@
 (* C06 — Object behaves as a string-keyed map with reference semantics under any program. *)
 From Anytype Require Import Base FloatBits Value Heap ObjectProofs.
+From Anytype Require CloneProofs. From Anytype Require Import Footprint.
 From Coq Require Import Permutation.
 Local Open Scope Z_scope.
 
@@ -61,6 +62,20 @@ Example C06_nonvacuous :
   p = false /\ alookup (B"a") kvs = Some (HInt 3) /\ alookup [] kvs = Some (HInt 2) /\ o_unset kvs [B"zz"] = kvs.
 Proof. vm_compute. repeat split; reflexivity. Qed.
 
+
+(* footprint: Set / Unset / Clear (and every list mutator) writes at most ONE heap cell, the receiver's own container, and leaves the environment alone;
+   hence every value from which the receiver is not reachable reads the same before and after (aliases of the receiver do see it) *)
+Theorem C06_mutator_footprint : forall s o r, basic_mutator o = Some r ->
+  st_env (fst (step_core s o)) = st_env s /\
+  (st_heap (fst (step_core s o)) = st_heap s \/
+   exists id c, (nth_error (st_env s) r = Some (HL id) \/ nth_error (st_env s) r = Some (HO id)) /\ (id < length (st_heap s))%nat /\
+                st_heap (fst (step_core s o)) = upd (st_heap s) id c).
+Proof. exact basic_mutator_footprint. Qed.
+Theorem C06_mutator_independent : forall s o r vr w f, basic_mutator o = Some r -> nth_error (st_env s) r = Some vr ->
+  (forall id, CloneProofs.Reach (st_heap s) w id -> vr <> HL id /\ vr <> HO id) ->
+  reify f (st_heap (fst (step_core s o))) w = reify f (st_heap s) w.
+Proof. exact basic_mutator_independent. Qed.
+
 Print Assumptions C06_set.
 Print Assumptions C06_set_lookup.
 Print Assumptions C06_set_odd_panics.
@@ -76,3 +91,5 @@ Print Assumptions C06_get_domain.
 Print Assumptions C06_typed_getter_domain.
 Print Assumptions C06_typeof_undefined.
 Print Assumptions C06_contains.
+Print Assumptions C06_mutator_footprint.
+Print Assumptions C06_mutator_independent.
